@@ -6,9 +6,10 @@ numbered check).
      PasswordDialog are used (quit dialog, pushed modally from an input handler, scheduled, stacked) run on the real
      App / scheduler (harness/screen_worker.py: thin logging subclasses) and on the extracted model with the Gallina
      specs: outcomes, final stack, open levels and the FULL event trace must be equal;
-        - ErrorDialog (AdvWidgets.v G2): equal up to and including the T_INPUT of the dialog, then the implementation
-          must leave with SystemExit;
-        - PasswordDialog (G3): equal up to the `source` of the InputReadySignal of its own blocking request;
+        - ErrorDialog: sys.exit(1) = SSysExit, fully equal (the session ends with SystemExit in both);
+        - the `answer` of YesNoDialog / PasswordDialog exists from __init__ on (sc_answer0), also when the quit
+          dialog is never rendered (push_screen_modal after force_quit());
+        - PasswordDialog (AdvWidgets.v G3): equal up to the `source` of the InputReadySignal of its own blocking request;
   3. every extracted acceptor (bin/model smon: 4, 105, 6, 7, 8, 18, 17) must accept the implementation's traces.
 Usage: VERIF_DEV=1 python checks/adv_corr.py [n] [seed]      exit 1 on any difference.
 """
@@ -37,6 +38,11 @@ def fixed_cases():
         out.append([3000, [caller, d], typed[3:], [], 0, [[0, [3, 0, 0], [3, 1, 5], [0, 1, 0]], [1]], ["plain", kind]])
         # rejection streak (every fifth: redraw) inside the dialog
         out.append([3000, [caller, d], [L("1")] + [L("zz")] * 11 + [L("yes"), L("a")], [], 0, [[0, [3, 0, 0]], [1]], ["plain", kind]])
+    # the quit dialog is never rendered: the handler calls force_quit() and returns the quit key; push_screen_modal returns at
+    # once; YesNoDialog / PasswordDialog have an answer (None): redraw (discarded); the others have none: ExitMainLoop
+    for kind in ["yesno", "password", "help", "error", gi]:
+        fq = screen_gen.spec(inputs=[("1", [[10]], [4, lib.cps("q")])])
+        out.append([3000, [fq, adv_specs.adv_spec(kind)], [L("1"), L("yes")], [1], 0, [[0, [3, 0, 0]], [1]], ["plain", kind]])
     # the quit dialog's answer is remembered: no, then yes
     out.append([3000, [plain, adv_specs.adv_spec("yesno")], [L("q"), L("no"), L("q"), L("no"), L("q"), L("yes"), L("q")], [1], 0,
                 [[0, [3, 0, 0]], [1]], ["plain", "yesno"]])
@@ -56,12 +62,6 @@ def compare(case, i, m):
     pw = any(k == "password" for k in kinds)
     ti, tm = norm_password(i[1], pw), norm_password(m[1], pw)
     if [i[0], i[2], i[3]] == [m[0], m[2], m[3]] and ti == tm:
-        return None
-    if error_exit(case, i):
-        # SystemExit raised by ErrorDialog.input() (G2): equal up to and including that T_INPUT event
-        k = [k for k, e in enumerate(ti) if e[0] == 19 and e[1] == 7][-1]
-        if ti[:k + 1] != tm[:k + 1]:
-            return first_diff(ti[:k + 1], tm[:k + 1])
         return None
     if [i[0], i[2], i[3]] != [m[0], m[2], m[3]]:
         return "outcomes/stack/levels: impl %s model %s" % ([i[0], i[2], i[3]], [m[0], m[2], m[3]])
